@@ -159,7 +159,8 @@ def judge(case):
     except Exception as e:
         return fails + [Failure("C13.well-formed", "reading-the-component-raises/" + exc_signature(e), repr(e)[:300])]
     # ---- instants
-    trs = [x for x in transitions(lib, zone) if lo - timedelta(days=1) <= x[0] - timedelta(seconds=0) and x[0] <= hi + timedelta(days=1)]
+    all_trs = transitions(lib, zone)
+    trs = [x for x in all_trs if lo - timedelta(days=1) <= x[0] - timedelta(seconds=0) and x[0] <= hi + timedelta(days=1)]
     # window in UTC terms: instants t with lo <= local(t) ... keep strictly inside to avoid edge ambiguity
     margin = timedelta(days=2)
     w_lo, w_hi = lo + margin, hi - margin
@@ -190,7 +191,7 @@ def judge(case):
     big_jump = any(abs(b - a) >= 86400 for _, a, b in trs)
     for t in pts:
         want = truth(tz_src, t)
-        tag = classify(lib, trs, t)
+        tag = classify(lib, trs, t, all_trs=all_trs)
         i = Z.lookup(defn, ons, t)
         if i is None:
             got_a = None
@@ -206,7 +207,7 @@ def judge(case):
                 got_b = (d.utcoffset(), d.tzname())
             except Exception as e:  # noqa: BLE001
                 got_b = ("raises", type(e).__name__)
-            tag = classify(provider, trs, t, converted=True)
+            tag = classify(provider, trs, t, converted=True, all_trs=all_trs)
             if got_b[0] == "raises" and big_jump:
                 tag = "@24h-jump"
             if provider == "pytz" and want[0].total_seconds() % 60:
@@ -229,7 +230,7 @@ def judge(case):
     return fails
 
 
-def classify(provider, trs, t, converted=False):
+def classify(provider, trs, t, converted=False, all_trs=None):
     """input-side localisation of the known from_tzinfo deviations (RC-M), from the source zone's ground-truth transitions"""
     for k, (x, a, b) in enumerate(trs):
         d = b - a
@@ -246,7 +247,9 @@ def classify(provider, trs, t, converted=False):
         if d < 0 and (provider == "pytz" or converted) and x - timedelta(seconds=-d) <= t < x:
             # (for the zone converted back under zoneinfo, dateutil's wall-clock lookup starts the observance early as well)
             return "@within-offset-change-of-a-transition"
-    for (x, a, b), (y, c, e) in zip(trs, trs[1:]):
+    # (the excursion may end after the window: the 64-day step of the search lands beyond its end all the same)
+    ex = all_trs if all_trs is not None else trs
+    for (x, a, b), (y, c, e) in zip(ex, ex[1:]):
         if y - x < timedelta(days=64) and x <= t <= y:
             return "@inside-excursion-shorter-than-64-days"
     # the search compares utcoffset() only: after a change of the abbreviation alone the old name is kept until the next offset change
